@@ -633,7 +633,7 @@ func checkC18(c *Case, s *Stats) error {
 	sh, ok := shapeOf(fresh)
 	classify(s, c, m, sh, ok)
 	var levels int
-	err = guard("Stat", func() error {
+	err = guardHang("C18", c, s, "Stat", func() error {
 		if e := checkStat(fresh, len(m.Keys), len(m.AllKeys), "fresh"); e != nil {
 			return e
 		}
@@ -670,7 +670,8 @@ func checkC18(c *Case, s *Stats) error {
 		if lines != int(st.Stat().NodeCnt) {
 			return viol("stat", "NodeCnt=%d but String() renders %d nodes", st.Stat().NodeCnt, lines)
 		}
-		return nil
+		// exact per-level counts: the rendering gives every node's depth and kind
+		return checkLevelsAgainstRendering(st.Stat(), str)
 	})
 	if err != nil {
 		return err
@@ -687,6 +688,52 @@ func checkC18(c *Case, s *Stats) error {
 	}
 	s.class(fmt.Sprintf("levels=%s", bucket(levels)))
 	s.done(c, levels >= 4 && leafEarly, c.Load+c.Opt.mode())
+	return nil
+}
+
+// checkLevelsAgainstRendering: Levels[d] must be the number of nodes (total,
+// inner, leaf) at depth <= d, the root being at depth 1; depth and kind of every
+// node are read from the String() rendering (a separate code path).
+func checkLevelsAgainstRendering(stat *trie.Stat, str string) error {
+	if str == "" {
+		return nil
+	}
+	var cols []int // idCol of the open ancestors
+	var total, inner, leaf []int32
+	for ln, line := range strings.Split(str, "\n") {
+		n, err := parseRenderedLine(line)
+		if err != nil {
+			return viol("render", "line %d: %v", ln, err)
+		}
+		for len(cols) > 0 && cols[len(cols)-1] > n.indent {
+			cols = cols[:len(cols)-1]
+		}
+		d := len(cols) + 1
+		for len(total) <= d {
+			total, inner, leaf = append(total, 0), append(inner, 0), append(leaf, 0)
+		}
+		total[d]++
+		if n.leaf {
+			leaf[d]++
+		} else {
+			inner[d]++
+		}
+		cols = append(cols, n.idCol)
+	}
+	for d := 1; d < len(total); d++ {
+		total[d] += total[d-1]
+		inner[d] += inner[d-1]
+		leaf[d] += leaf[d-1]
+	}
+	if len(stat.Levels) != len(total) {
+		return viol("stat", "Stat reports %d levels %+v, the rendered tree has depth %d (cumulative totals %v)", len(stat.Levels)-1, stat.Levels, len(total)-1, total)
+	}
+	for d := range total {
+		l := stat.Levels[d]
+		if l.Total != total[d] || l.Inner != inner[d] || l.Leaf != leaf[d] {
+			return viol("stat", "level %d: Stat reports %+v, the rendered tree has (total %d, inner %d, leaf %d) nodes down to that depth; all levels: %+v", d, l, total[d], inner[d], leaf[d], stat.Levels)
+		}
+	}
 	return nil
 }
 
